@@ -1,4 +1,5 @@
 import KoordVerif.Proofs.C17Evict
+import KoordVerif.Proofs.C17Node
 /-
 C17: the gates doMigrate has passed whenever it reaches the `Evict` call (reservation-first mode).
 -/
@@ -9,7 +10,11 @@ def GatesM (m1 : M) : Prop :=
   RR m1 true ∧ ∃ r, m1.env.resv = some r ∧ resvPending r = false ∧ resvExpired r = false ∧
     (resvScheduled r = true ∨ (r.needPreempt = true ∧ m1.env.preempt = 2)) ∧ r.pendingMode = false
 
-def Q (m1 : M) : Prop := m1.mem.spec.direct = false → GatesM m1
+/-- the reservation's node, if it has one, is not the pod's node -/
+def NodeOK (m1 : M) : Prop := ∀ r p, m1.env.resv = some r → m1.env.pod = some p → r.node ≠ 0 → r.node ≠ p.node
+
+/-- `nc` = "at the start of this reconcile the job had not yet recorded a target node" -/
+def Q (nc : Prop) (m1 : M) : Prop := m1.mem.spec.direct = false → GatesM m1 ∧ (nc → NodeOK m1)
 
 theorem preemptGate_cont {m m' : M} {r : Resv} (h : preemptGate m r = .cont m') :
     resvScheduled r = true ∨ (r.needPreempt = true ∧ m.env.preempt = 2) := by
@@ -25,11 +30,11 @@ theorem preemptGate_cont {m m' : M} {r : Resv} (h : preemptGate m r = .cont m') 
         exact Or.inr ⟨by simpa using hn.1, h2⟩
       · cases h
 
-theorem withReservation_goal (m : M) (r : Resv) (hr : m.env.resv = some r) (hrr : RR m true) :
-    Goal m Q (withReservation m r).m := by
+theorem withReservation_goal (nc : Prop) (m : M) (r : Resv) (hr : m.env.resv = some r) (hrr : RR m true)
+    (hnc : nc → NC m) : Goal m (Q nc) (withReservation m r).m := by
   unfold withReservation
   refine Goal.bind (spec_syncScheduleFailed m r) ?_
-  intro m1 _ f1
+  intro m1 hc1 f1
   split
   · exact Goal.of_keep (Keep.refl _)
   · rename_i hpend
@@ -40,7 +45,7 @@ theorem withReservation_goal (m : M) (r : Resv) (hr : m.env.resv = some r) (hrr 
       intro m2 hc2 f2
       have hpre := preemptGate_cont hc2
       refine Goal.bind (spec_prepareScheduleSuccess m2 r) ?_
-      intro m3 _ f3
+      intro m3 hc3 f3
       split
       · exact Goal.of_keep (keep_waitPendingPod _)
       · rename_i hpm
@@ -48,16 +53,23 @@ theorem withReservation_goal (m : M) (r : Resv) (hr : m.env.resv = some r) (hrr 
         have f23 : Frame m1 m3 := f2.trans f3
         refine Goal.bindEv (evictPod_spec m3) ?_ ?_
         · intro _
-          refine ⟨fr.rr true hrr, r, by rw [fr.env]; exact hr, by simpa using hpend, by simpa using hexp, ?_, by simpa using hpm⟩
-          rcases hpre with h | ⟨h1, h2⟩
-          · exact Or.inl h
-          · exact Or.inr ⟨h1, by rw [f23.env]; exact h2⟩
+          refine ⟨⟨fr.rr true hrr, r, by rw [fr.env]; exact hr, by simpa using hpend, by simpa using hexp, ?_, by simpa using hpm⟩, ?_⟩
+          · rcases hpre with h | ⟨h1, h2⟩
+            · exact Or.inl h
+            · exact Or.inr ⟨h1, by rw [f23.env]; exact h2⟩
+          · intro hn r' p hr' hp hnode
+            have hnc2 : NC m2 := nc_preemptGate (nc_syncScheduleFailed (hnc hn) hc1) hc2
+            rw [fr.env, hr] at hr'
+            cases hr'
+            rw [f3.env] at hp
+            exact prepareScheduleSuccess_node hnc2 hc3 p hp hnode
         · intro m4 _
           exact Res.Spec.bind (spec_waitBind m4 r) fun m5 _ =>
             Res.Spec.bind (spec_boundSuccess m5) fun m6 _ =>
               Res.Spec.bind (spec_waitReady m6) fun m7 _ => spec_finish m7
 
-theorem reservationFirst_goal (m : M) (b : Bool) (h : RR m b) : Goal m Q (reservationFirst m).m := by
+theorem reservationFirst_goal (nc : Prop) (m : M) (b : Bool) (h : RR m b) (hnc : nc → NC m) :
+    Goal m (Q nc) (reservationFirst m).m := by
   unfold reservationFirst
   split
   · exact Goal.of_keep (keep_createReservation m)
@@ -75,22 +87,27 @@ theorem reservationFirst_goal (m : M) (b : Bool) (h : RR m b) : Goal m Q (reserv
       simp only [Res.bind]
       refine Goal.pull hs'.toKeep ?_
       refine Goal.bind (spec_okOr _ (frame_updateCondition m1 _ ok1)) ?_
-      intro m2 _ f2
+      intro m2 hc2 f2
       split
       · exact Goal.of_keep (frame_abortWith _ _).toKeep
       · rename_i r hres
-        exact withReservation_goal m2 r hres (f2.rr true (hs'.rr true h))
+        refine withReservation_goal nc m2 r hres (f2.rr true (hs'.rr true h)) ?_
+        intro hn
+        have := okOr_cont hc2
+        subst this
+        exact nc_updateCondition (nc_setReservationOrder (hnc hn) hso) (Or.inl (by decide))
 
-theorem doMigrate_goal (m : M) (b : Bool) (h : RR m b) : Goal m Q (doMigrate m) := by
+theorem doMigrate_goal (nc : Prop) (m : M) (b : Bool) (h : RR m b) (hnc : nc → NC m) :
+    Goal m (Q nc) (doMigrate m) := by
   unfold doMigrate
   split
   · exact Goal.of_keep (Keep.refl m)
   · split
     · exact Goal.of_keep (Keep.refl m)
     · refine Goal.bind (spec_abortIfTimeout m) ?_
-      intro m1 _ f1
+      intro m1 hc1 f1
       refine Goal.bind (spec_preparePending m1) ?_
-      intro m2 _ f2
+      intro m2 hc2 f2
       split
       · exact Goal.of_keep (Keep.refl _)
       · split
@@ -100,6 +117,10 @@ theorem doMigrate_goal (m : M) (b : Bool) (h : RR m b) : Goal m Q (doMigrate m) 
           intro m3 _
           exact ((frame_setStatus_noconds m3 (fun s => { s with phase := Ph.succeeded, status := CT.complete, reason := Rs.none }) (fun _ => rfl)).trans
             (frame_statusUpdate _)).toKeep
-        · exact reservationFirst_goal m2 b ((f1.trans f2).rr b h)
+        · refine reservationFirst_goal nc m2 b ((f1.trans f2).rr b h) ?_
+          intro hn
+          have := abortIfTimeout_cont hc1
+          subst this
+          exact nc_preparePending (hnc hn) hc2
 
 end KoordVerif.C17
